@@ -271,3 +271,39 @@ def _gen_leaf(rng):
 
 leaf_legs.gen = _gen_leaf
 leaf_legs.pre_must_hold = True
+
+
+# ------------------------------------------------------------------ can_dot
+def _map_legs3(engine, st, _a, node, kw):
+    import ast
+    from ..pyvc.engine import Unsupported
+
+    f, seq = node.args
+    if isinstance(f, ast.Attribute) and f.attr == "get_legs":
+        sv = engine.deref(st, engine.eval(st, seq))
+        ext = _per_node_map("legs")
+        return Ty.mk_tuple([engine.unbox_value(st, ext(engine, st, [None, engine.box(st, p)], node, {})) for p in Ty.split(sv.t, sv.c)])
+    raise Unsupported("map() of another function")
+
+
+_map_legs3.raw = True
+
+can_dot = Contract(
+    target="cotengra.core:ContractionTree.get_can_dot",
+    props=["C01", "C11"],
+    self_type=TreeT,
+    params={"node": NodeT},
+    lets={"SP": "self.get_legs(node)", "SL": "self.get_legs(self.children[node][0])", "SR": "self.get_legs(self.children[node][1])"},
+    requires=["node in self.children"],
+    returns=Ty.Bool,
+    externals={"ContractionTree.get_legs": _per_node_map("legs"), "map": _map_legs3},
+    ensures=[
+        # tensordot is chosen exactly when every index is either kept from one side or shared and summed:
+        # no index is both shared and kept (batch), none is dropped from one side only (single-tensor sum)
+        "result == forall(lambda k: (k in SP) == ((k in SL) != (k in SR)))",
+    ],
+    assumptions=["get_legs(node) is a fixed map per node"],
+)
+can_dot.gen = _gen_node("nonleaf")
+can_dot.pre_must_hold = True
+CONTRACTS.append(can_dot)
